@@ -147,7 +147,12 @@ func intStr(i math.Int) string {
 }
 
 func (b fakeBank) GetBalance(ctx context.Context, addr sdk.AccAddress, denom string) sdk.Coin {
-	return sdk.Coin{Denom: denom, Amount: math.NewIntFromBigInt(b.w.ledgerGet(ctx, balKey(addr, denom)).Int)}
+	// the fake ledger is unbounded (like the model's); math.Int is not: a balance beyond 2^256-1 is reported as 2^256-1
+	bal := b.w.ledgerGet(ctx, balKey(addr, denom)).Int
+	if bal.BitLen() > 256 {
+		bal = new(big.Int).Sub(new(big.Int).Lsh(big.NewInt(1), 256), big.NewInt(1))
+	}
+	return sdk.Coin{Denom: denom, Amount: math.NewIntFromBigInt(bal)}
 }
 
 func (b fakeBank) SendCoinsFromAccountToModule(ctx context.Context, sender sdk.AccAddress, module string, amt sdk.Coins) (err error) {
